@@ -1,4 +1,5 @@
 import DsProofs.BruteProofs
+import Mathlib.Data.List.TakeWhile
 
 /-!
 # Helper lemmas for the Monte-Carlo method (`Ds.MC`)
@@ -112,22 +113,33 @@ theorem foldlM_step_eq {n : ℕ} {v : List Int → Outcome} {null mean : ℚ} {p
     rw [List.foldlM_cons, step_eq_stepP a hv hq]
     exact ih (stepP_query_isQuery a hq)
 
-/-- the starting state of every walk -/
-def init (n : ℕ) (null : ℚ) : Walk :=
-  { query := List.replicate n 0, score := null, counter := 0, imp := List.replicate n 0, cut := false }
+/-- the starting state of a walk whose baseline score (the score of the all-zero query) is `s0` -/
+def init (n : ℕ) (s0 : ℚ) : Walk :=
+  { query := List.replicate n 0, score := s0, counter := 0, imp := List.replicate n 0, cut := false }
+
+/-- the baseline of every walk: the value of the coalition of no units -/
+def base (n : ℕ) (v : List Int → Outcome) (null : ℚ) : ℚ := valOf null (v (List.replicate n 0))
 
 /-- total version of `Ds.MC.column` -/
 def columnP (n : ℕ) (v : List Int → Outcome) (null mean : ℚ) (pr : Params) (perm : List ℕ) : List ℚ :=
-  (perm.foldl (stepP v null mean pr) (init n null)).imp
+  (perm.foldl (stepP v null mean pr) (init n (base n v null))).imp
 
 theorem column_eq {n : ℕ} {v : List Int → Outcome} {null mean : ℚ} {pr : Params}
     (hv : ∀ q, IsQuery n q → v q ≠ .other) (perm : List ℕ) :
     column n v null mean pr perm = some (columnP n v null mean pr perm) := by
   unfold column columnP
   have := foldlM_step_eq (null := null) (mean := mean) (pr := pr) hv perm
-    (w := init n null) (isQuery_replicate n)
-  unfold init at this ⊢
+    (w := init n (base n v null)) (isQuery_replicate n)
+  rw [caught_eq_valOf (hv _ (isQuery_replicate n))]
+  unfold init base at this ⊢
+  simp only
   rw [this]; rfl
+
+/-- if scoring the coalition of no units propagates, so does the column -/
+theorem column_none_of_base {n : ℕ} {v : List Int → Outcome} {null mean : ℚ} {pr : Params}
+    (h : v (List.replicate n 0) = .other) (perm : List ℕ) :
+    column n v null mean pr perm = none := by
+  unfold column; rw [h]; rfl
 
 /-- an evaluation that propagates aborts the walk (if it is reached before a cut) -/
 theorem foldlM_step_none {v : List Int → Outcome} {null mean : ℚ} {pr : Params}
@@ -198,12 +210,16 @@ theorem mapM_none {α β : Type} (f : α → Option β) (l : List α)
 /-- reading `t` exceeds the budget -/
 def over (pr : Params) (start t : ℚ) : Prop := pr.timeout > 0 ∧ t - start > pr.timeout
 
-instance (pr : Params) (start t : ℚ) : Decidable (over pr start t) := by
-  unfold over; infer_instance
+instance (pr : Params) (start t : ℚ) : Decidable (over pr start t) :=
+  inferInstanceAs (Decidable (pr.timeout > 0 ∧ t - start > pr.timeout))
 
 /-- index of the first reading that exceeds the budget (`clock.length` if there is none) -/
 def firstOver (pr : Params) (start : ℚ) (clock : List ℚ) : ℕ :=
   clock.findIdx (fun t => decide (over pr start t))
+
+theorem firstOver_eq (pr : Params) (start : ℚ) (clock : List ℚ) :
+    firstOver pr start clock =
+      clock.findIdx (fun t => decide (pr.timeout > 0 ∧ t - start > pr.timeout)) := rfl
 
 /-- number of iterations kept out of `m` -/
 def keepCount (pr : Params) (start : ℚ) (m : ℕ) (clock : List ℚ) : ℕ :=
@@ -578,7 +594,7 @@ theorem tinv_stepT {v : List Int → Outcome} {null mean : ℚ} {pr : Params} {s
       · simp
     · rw [next_of_not_inBand hb]
       constructor
-      · simp [List.takeWhile_cons, hb]
+      · simp [hb]
       · simp
 
 theorem tinv_foldl {v : List Int → Outcome} {null mean : ℚ} {pr : Params} (l : List ℕ) {s : Walk × List ℚ}
@@ -629,7 +645,7 @@ theorem walkT_spec (v : List Int → Outcome) (null mean : ℚ) (pr : Params) (w
       have e : stepT v null mean pr (walkT v null mean pr w0 l) a = walkT v null mean pr w0 l := by
         unfold stepT; rw [hc]; rfl
       rw [e]
-      refine ⟨by simp; omega, fun h => by rw [hc] at h; cases h, ?_, ?_⟩
+      refine ⟨(by simp; omega), (fun h => by rw [hc] at h; cases h), ?_, ?_⟩
       · rw [List.take_append_of_le_length ih1]; exact ih3
       · intro k hk
         have hk1 : k + 1 ≤ l.length := by omega
@@ -663,6 +679,257 @@ theorem walkT_spec (v : List Int → Outcome) (null mean : ℚ) (pr : Params) (w
           refine ⟨?_, hc⟩
           rw [List.getElem?_append_right (by simp [hlen])]
           simp [hlen]
+
+/-! ### from the monadic walk to the total walk, without assumptions on the utility -/
+
+/-- whenever the monadic walk finishes, its final state is the one of the total walk -/
+theorem foldlM_step_some {v : List Int → Outcome} {null mean : ℚ} {pr : Params} (l : List ℕ) {w w' : Walk}
+    (h : l.foldlM (step v null mean pr) w = some w') : w' = l.foldl (stepP v null mean pr) w := by
+  induction l generalizing w with
+  | nil => exact (Option.some.inj h).symm
+  | cons a l ih =>
+    rw [List.foldlM_cons] at h
+    cases hc : w.cut with
+    | true =>
+      rw [step_of_cut a hc] at h
+      have e : stepP v null mean pr w a = w := by unfold stepP; rw [hc]; rfl
+      rw [List.foldl_cons, e]
+      exact ih h
+    | false =>
+      by_cases ha : v (w.query.set a 1) = .other
+      · rw [step_of_other hc ha] at h; cases h
+      · rw [step_of_not_cut hc ha] at h
+        have e : stepP v null mean pr w a = next v null mean pr w a := by unfold stepP; rw [hc]; rfl
+        rw [List.foldl_cons, e]
+        exact ih h
+
+/-- if the monadic walk finishes, so does every prefix of it -/
+theorem foldlM_step_take {v : List Int → Outcome} {null mean : ℚ} {pr : Params} (l : List ℕ) {w w' : Walk}
+    (h : l.foldlM (step v null mean pr) w = some w') (k : ℕ) :
+    (l.take k).foldlM (step v null mean pr) w = some ((l.take k).foldl (stepP v null mean pr) w) := by
+  rw [← List.take_append_drop k l, List.foldlM_append] at h
+  cases hk : (l.take k).foldlM (step v null mean pr) w with
+  | none => rw [hk] at h; cases h
+  | some wk => rw [foldlM_step_some _ hk]
+
+/-- chronological reading of `tinv_cut` -/
+theorem tinv_cut_chrono {mean : ℚ} {pr : Params} {s : Walk × List ℚ} (h : TInv mean pr s)
+    (hcut : s.1.cut = true) (k : ℕ) (hk1 : s.2.length - (pr.truncSteps + 1) ≤ k) (hk2 : k < s.2.length) :
+    ∃ x, s.2.reverse[k]? = some x ∧ inBand mean pr x := by
+  obtain ⟨_, _, hlen, hall⟩ := tinv_cut h hcut
+  have hm : s.2.length - 1 - k < s.2.length := by omega
+  refine ⟨s.2[s.2.length - 1 - k], ?_, ?_⟩
+  · rw [List.getElem?_reverse hk2, List.getElem?_eq_getElem hm]
+  · apply hall
+    have hm' : s.2.length - 1 - k < (s.2.take (pr.truncSteps + 1)).length := by
+      rw [List.length_take]; omega
+    have : (s.2.take (pr.truncSteps + 1))[s.2.length - 1 - k] = s.2[s.2.length - 1 - k] := by
+      rw [List.getElem_take]
+    rw [← this]
+    exact List.getElem_mem hm'
+
+
+/-! ### the column of a permutation, truncation disabled -/
+
+theorem columnP_eq_next {n : ℕ} {v : List Int → Outcome} {null mean : ℚ} {pr : Params}
+    (htr : pr.truncSteps = 0) (perm : List ℕ) :
+    columnP n v null mean pr perm = (perm.foldl (next v null mean pr) (init n (base n v null))).imp := by
+  unfold columnP
+  rw [(foldl_stepP_eq_next htr perm (w := init n (base n v null)) rfl).1]
+
+theorem columnP_entry {n : ℕ} {v : List Int → Outcome} {null mean : ℚ} {pr : Params}
+    (htr : pr.truncSteps = 0) {perm : List ℕ} (hnd : perm.Nodup) (hlt : ∀ x ∈ perm, x < n)
+    (k : ℕ) (hk : k < perm.length) :
+    (columnP n v null mean pr perm).getD perm[k] 0 =
+      valOf null (v (indQ n (perm.take (k+1)))) - valOf null (v (indQ n (perm.take k))) := by
+  rw [columnP_eq_next htr, foldl_next_imp_entry v null mean pr perm _ hnd (by simpa [init] using hlt) k hk]
+  simp only [init, setAll_replicate]
+  congr 1
+  cases k with
+  | zero => simp [base, indQ_nil]
+  | succ k => simp
+
+theorem columnP_untouched {n : ℕ} {v : List Int → Outcome} {null mean : ℚ} {pr : Params}
+    (perm : List ℕ) (u : ℕ) (hu : u ∉ perm) : (columnP n v null mean pr perm).getD u 0 = 0 := by
+  unfold columnP
+  rw [foldl_stepP_imp_untouched _ _ _ _ _ _ _ hu]
+  simp only [init, List.getD_eq_getElem?_getD, List.getElem?_replicate]
+  split <;> rfl
+
+theorem columnP_sum {n : ℕ} {v : List Int → Outcome} {null mean : ℚ} {pr : Params}
+    (htr : pr.truncSteps = 0) {perm : List ℕ} (hnd : perm.Nodup) (hlt : ∀ x ∈ perm, x < n) :
+    (columnP n v null mean pr perm).sum =
+      valOf null (v (indQ n perm)) - valOf null (v (List.replicate n 0)) := by
+  rw [columnP_eq_next htr, foldl_next_imp_sum v null mean pr perm _ hnd (by simpa [init] using hlt)
+    (fun a _ => by
+      simp only [init, List.getD_eq_getElem?_getD, List.getElem?_replicate]
+      split <;> rfl)]
+  have h0 : (init n (base n v null)).imp.sum = 0 := by simp [init]
+  rw [h0, zero_add]
+  congr 1
+  by_cases hp : perm = []
+  · subst hp; simp [init, base, indQ_nil]
+  · rw [foldl_next_score _ _ _ _ _ _ hp]; simp [init, setAll_replicate]
+
+theorem columnP_sum_full {n : ℕ} {v : List Int → Outcome} {null mean : ℚ} {pr : Params}
+    (htr : pr.truncSteps = 0) {perm : List ℕ} (hnd : perm.Nodup) (hlt : ∀ x ∈ perm, x < n)
+    (hlen : perm.length = n) :
+    (columnP n v null mean pr perm).sum =
+      valOf null (v (List.replicate n 1)) - valOf null (v (List.replicate n 0)) := by
+  rw [columnP_sum htr hnd hlt, indQ_full n (mem_of_isPerm hnd hlt hlen)]
+
+
+/-! ### index lists ↔ `Equiv.Perm (Fin n)` -/
+
+/-- `p` lists every unit `0 … n-1` exactly once -/
+def IsPerm (n : ℕ) (p : List ℕ) : Prop := p.Nodup ∧ (∀ x ∈ p, x < n) ∧ p.length = n
+
+/-- the visiting order of the ordering `σ` (unit ↦ position): position `k` holds unit `σ⁻¹ k` -/
+def listOf {n : ℕ} (σ : Equiv.Perm (Fin n)) : List ℕ := List.ofFn (fun k : Fin n => (σ.symm k).val)
+
+theorem length_listOf {n : ℕ} (σ : Equiv.Perm (Fin n)) : (listOf σ).length = n := by simp [listOf]
+
+theorem isPerm_listOf {n : ℕ} (σ : Equiv.Perm (Fin n)) : IsPerm n (listOf σ) := by
+  refine ⟨?_, ?_, length_listOf σ⟩
+  · exact List.nodup_ofFn.mpr (fun a b h => σ.symm.injective (Fin.val_injective h))
+  · intro x hx
+    simp only [listOf, List.mem_ofFn] at hx
+    obtain ⟨k, rfl⟩ := hx
+    exact (σ.symm k).isLt
+
+theorem listOf_injective {n : ℕ} : Function.Injective (listOf : Equiv.Perm (Fin n) → List ℕ) := by
+  intro σ τ h
+  have h1 := List.ofFn_injective h
+  have h2 : σ.symm = τ.symm := by
+    ext k; exact congrArg Fin.val (Fin.val_injective (congrFun h1 k))
+  have := congrArg Equiv.symm h2
+  simpa using this
+
+theorem exists_listOf_eq {n : ℕ} {p : List ℕ} (hp : IsPerm n p) : ∃ σ : Equiv.Perm (Fin n), listOf σ = p := by
+  obtain ⟨hnd, hlt, hlen⟩ := hp
+  let f : Fin n → Fin n := fun k => ⟨p[k.val]'(by rw [hlen]; exact k.isLt), hlt _ (List.getElem_mem _)⟩
+  have hinj : Function.Injective f := by
+    intro a b hab
+    have : p[a.val]'(by rw [hlen]; exact a.isLt) = p[b.val]'(by rw [hlen]; exact b.isLt) :=
+      congrArg Fin.val hab
+    exact Fin.ext ((List.Nodup.getElem_inj_iff hnd).mp this)
+  have hbij : Function.Bijective f := Finite.injective_iff_bijective.mp hinj
+  refine ⟨(Equiv.ofBijective f hbij).symm, ?_⟩
+  apply List.ext_getElem
+  · simp [listOf, hlen]
+  · intro i h1 h2
+    simp [listOf, f]
+
+theorem getElem?_listOf {n : ℕ} (σ : Equiv.Perm (Fin n)) (i : Fin n) :
+    (listOf σ)[(σ i).val]? = some i.val := by
+  simp [listOf]
+
+theorem mem_take_listOf {n : ℕ} (σ : Equiv.Perm (Fin n)) (u : Fin n) (k : ℕ) :
+    u.val ∈ (listOf σ).take k ↔ (σ u).val < k := by
+  rw [List.mem_take_iff_getElem]
+  constructor
+  · rintro ⟨m, hm, hmu⟩
+    have hmn : m < n := by
+      have := (lt_min_iff.mp hm).2; rwa [length_listOf] at this
+    have hmk : m < k := (lt_min_iff.mp hm).1
+    have e : σ.symm ⟨m, hmn⟩ = u := by
+      apply Fin.ext
+      simpa [listOf] using hmu
+    have : σ u = ⟨m, hmn⟩ := by rw [← e]; simp
+    rw [this]; exact hmk
+  · intro h
+    refine ⟨(σ u).val, lt_min_iff.mpr ⟨h, by rw [length_listOf]; exact (σ u).isLt⟩, ?_⟩
+    simp [listOf]
+
+/-- the 0/1 query vector of a coalition -/
+def indS {n : ℕ} (S : Finset (Fin n)) : List Int := List.ofFn (fun i : Fin n => if i ∈ S then (1 : Int) else 0)
+
+theorem indQ_take_listOf {n : ℕ} (σ : Equiv.Perm (Fin n)) (k : ℕ) :
+    indQ n ((listOf σ).take k) = indS (Finset.univ.filter (fun j : Fin n => (σ j).val < k)) := by
+  apply List.ext_getElem
+  · simp [indQ, indS]
+  · intro u h1 h2
+    have hu : u < n := by simpa [indQ] using h1
+    have := mem_take_listOf σ ⟨u, hu⟩ k
+    simp only [indQ, indS, List.getElem_map, List.getElem_range, List.getElem_ofFn,
+      Finset.mem_filter, Finset.mem_univ, true_and]
+    rw [if_congr this rfl rfl]
+
+/-- the cooperative game the utility defines: a coalition is worth the value of its 0/1 query -/
+def gameOf (n : ℕ) (v : List Int → Outcome) (null : ℚ) : Sh.Game n := fun S => valOf null (v (indS S))
+
+theorem indS_univ (n : ℕ) : indS (Finset.univ : Finset (Fin n)) = List.replicate n 1 := by
+  apply List.ext_getElem <;> simp [indS]
+
+theorem indS_empty (n : ℕ) : indS (∅ : Finset (Fin n)) = List.replicate n 0 := by
+  apply List.ext_getElem <;> simp [indS]
+
+/-- the column entry of unit `i` for the visiting order of `σ` is `i`'s marginal contribution to
+the units before it -/
+theorem columnP_listOf {n : ℕ} {v : List Int → Outcome} {null mean : ℚ} {pr : Params}
+    (htr : pr.truncSteps = 0) (σ : Equiv.Perm (Fin n)) (i : Fin n) :
+    (columnP n v null mean pr (listOf σ)).getD i.val 0 =
+      gameOf n v null (insert i (Sh.before σ i)) - gameOf n v null (Sh.before σ i) := by
+  obtain ⟨hnd, hlt, hlen⟩ := isPerm_listOf σ
+  have hk : (σ i).val < (listOf σ).length := by rw [hlen]; exact (σ i).isLt
+  have hget : (listOf σ)[(σ i).val] = i.val := by
+    have := getElem?_listOf σ i
+    rw [List.getElem?_eq_getElem hk] at this
+    exact Option.some.inj this
+  have := columnP_entry (v := v) (null := null) (mean := mean) htr hnd hlt (σ i).val hk
+  rw [hget] at this
+  rw [this, indQ_take_listOf, indQ_take_listOf]
+  unfold gameOf
+  have e1 : (Finset.univ.filter (fun j : Fin n => (σ j).val < (σ i).val)) = Sh.before σ i := by
+    ext j; simp only [Sh.before, Finset.mem_filter, Finset.mem_univ, true_and, Fin.lt_def]
+  have e2 : (Finset.univ.filter (fun j : Fin n => (σ j).val < (σ i).val + 1)) = insert i (Sh.before σ i) := by
+    ext j
+    simp only [Sh.before, Finset.mem_filter, Finset.mem_univ, true_and, Finset.mem_insert, Fin.lt_def]
+    constructor
+    · intro h
+      by_cases hji : (σ j).val = (σ i).val
+      · left; exact σ.injective (Fin.ext hji)
+      · right; omega
+    · rintro (rfl | h) <;> omega
+  rw [e1, e2]
+
+theorem count_eq_countP_decide {α : Type} [BEq α] [LawfulBEq α] [DecidableEq α] (l : List α) (a : α) :
+    l.count a = l.countP (fun b => decide (b = a)) := by
+  rw [List.count_eq_countP]
+  congr 1
+  funext b
+  by_cases h : b = a <;> simp [h]
+
+/-- `List.count` under the two (equal) Boolean equalities on `List ℕ` that elaboration may pick -/
+theorem count_inst (l : List (List ℕ)) (a : List ℕ) :
+    @List.count _ instBEqOfDecidableEq a l = @List.count _ List.instBEq a l :=
+  (@count_eq_countP_decide _ instBEqOfDecidableEq _ _ l a).trans
+    (@count_eq_countP_decide _ List.instBEq _ _ l a).symm
+
+/-- summing over a list of index lists in which every permutation of `0 … n-1` occurs exactly `c`
+times is `c` times the sum over `Equiv.Perm (Fin n)` -/
+theorem sum_perms_eq {n c : ℕ} {perms : List (List ℕ)} (hperm : ∀ p ∈ perms, IsPerm n p)
+    (hcount : ∀ p, IsPerm n p → perms.count p = c) (hc : 0 < c) (F : List ℕ → ℚ) :
+    (perms.map F).sum = c * ∑ σ : Equiv.Perm (Fin n), F (listOf σ) ∧ perms.length = c * n.factorial := by
+  have hset : perms.toFinset = Finset.univ.image (listOf : Equiv.Perm (Fin n) → List ℕ) := by
+    ext p
+    simp only [List.mem_toFinset, Finset.mem_image, Finset.mem_univ, true_and]
+    constructor
+    · intro hp; exact exists_listOf_eq (hperm p hp)
+    · rintro ⟨σ, rfl⟩
+      have := hcount _ (isPerm_listOf σ)
+      exact List.count_pos_iff.mp (by omega)
+  constructor
+  · rw [Finset.sum_list_map_count, hset, Finset.sum_image (fun a _ b _ h => listOf_injective h),
+      Finset.mul_sum]
+    apply Finset.sum_congr rfl
+    intro σ _
+    rw [count_inst, hcount _ (isPerm_listOf σ)]; simp
+  · rw [← List.sum_toFinset_count_eq_length, hset,
+      Finset.sum_image (fun a _ b _ h => listOf_injective h)]
+    rw [Finset.sum_congr rfl (fun σ _ => (count_inst perms (listOf σ)).trans (hcount _ (isPerm_listOf σ)))]
+    simp [Fintype.card_perm, mul_comm]
+
 
 /-! ### averaging -/
 
